@@ -49,6 +49,8 @@ private:
     std::unordered_set<const TypedefDeclarationSymbol*> tydefDeclsUnderResolution_;
 
     const Type* resolve(const Type* ty);
+    const Type* resolve_CORE(const Type* ty);
+    std::unordered_set<const Type*> tysUnderResolution_;
 
     //--------------//
     // Declarations //
